@@ -232,6 +232,9 @@ let lk_state = ref s0
    drop_detached_ops: the model's lock is free and the opener gone when it answers, `rtgone` changes no
    model state (do_runtime_gone answers noop; only the harness-side id is given back here). *)
 let lk_zombies : int list ref = ref []
+(* does the script's side directory hold a checkpoint?  (create_checkpoint of a live store; a restore without one
+   fails at read_checkpoint_metadata, before anything is cleared: no model operation) *)
+let lk_ckpt = ref false
 let lk_opts (s : string) : oopts =
   List.fold_left (fun o kv -> match kv with
       | "" | "-" | "plain" | "nofoc" -> o
@@ -245,7 +248,7 @@ let lk_cmd (args : string list) : string =
   let st (s, a) = lk_state := s; lk_answer a in
   let exists o = match pc_of !lk_state o with Some _ -> true | None -> false in
   match args with
-  | ["new"] -> lk_state := s0; lk_zombies := []; "ok"
+  | ["new"] -> lk_state := s0; lk_zombies := []; lk_ckpt := false; "ok"
   | ["open"; i] | ["open"; i; _] when List.mem (int_of_string i) !lk_zombies -> "busy"
   | ["open"; i] -> st (do_open current !lk_state (ni i) O (lk_opts "-"))
   | ["open"; i; o] -> st (do_open current !lk_state (ni i) O (lk_opts o))
@@ -260,6 +263,13 @@ let lk_cmd (args : string list) : string =
     let r = st (do_runtime_gone current !lk_state (ni i)) in
     if List.mem (int_of_string i) !lk_zombies then begin
       lk_zombies := List.filter (fun x -> x <> int_of_string i) !lk_zombies; "ok" end else r
+  | ["ckpt"; i] -> let r = st (do_checkpoint current !lk_state (ni i)) in if r = "ok" then lk_ckpt := true; r
+  | ["pckpt"; p] -> let r = st (do_checkpoint current !lk_state (lk_kid p)) in if r = "ok" then lk_ckpt := true; r
+  | ["restore"; i] -> if not (exists (ni i)) then "noop" else if not !lk_ckpt then "nockpt" else st (do_restore current !lk_state (ni i))
+  | ["prestore"; p] -> if not (exists (lk_kid p)) then "noop" else if not !lk_ckpt then "nockpt" else st (do_restore current !lk_state (lk_kid p))
+  | ["lockid"; i] | ["plockid"; i] ->
+    (match lock_identity !lk_state (if List.hd args = "lockid" then ni i else lk_kid i) with
+     | IdSame -> "same" | IdChanged -> "changed" | IdAbsent -> "absent" | IdNoOpener -> "noop")
   | ["commit"; i; _; _] -> st (do_commit current !lk_state (ni i))
   | ["pcommit"; p; _; _] -> st (do_commit current !lk_state (lk_kid p))
   | ["pclose"; p] ->
@@ -275,7 +285,8 @@ let lk_cmd (args : string list) : string =
   (* holder: the kernel's lock table now; dropprobe: the same, asked right after a `dropout` (the harness took its
      probe the instant drop() returned; no model operation lies between the two) *)
   | ["holder"] | ["dropprobe"] ->
-    (match (!lk_state).st_fs.f_lock, (!lk_state).st_flock with
+    (* the probe opens the file that the NAME LOCK denotes and tries that inode's lock *)
+    (match (!lk_state).st_fs.f_lock, lock_owner !lk_state with
      | LAbsent, _ -> "absent" | _, Some _ -> "held" | _, None -> "free")
   | ["snapshot"] ->
     let f = (!lk_state).st_fs in
